@@ -1,4 +1,5 @@
 import Syzgy.Lemmas.Parser
+import Syzgy.Lemmas.LexProg
 import Syzgy.Model.Query.Eval
 /-!
 # C14 — building and applying a filter never panics
@@ -22,6 +23,31 @@ theorem parse_no_panic (inp : ByteArray) (nok : NumOK) : (parse inp nok).isPanic
 theorem parser_no_panic (nx : TokSrc) (nok : NumOK) (hnx : ∀ p, (nx p).isPanic = false) (fuel : Nat) (s : PS) :
     (parseOr nx nok fuel s).isPanic = false :=
   (allNP nx nok hnx fuel).or_ s
+
+/-- **the parser terminates on every input**: the model's recursion is driven by fuel `16 * |text| + 64`
+    (one unit per nested call or loop iteration); for no text and no number oracle does it run out.
+    The measure behind the proof: every token the lexer hands out other than EOF ends strictly behind
+    the position it started from (`lexer_makes_progress`), every loop iteration and every descent into a
+    nested expression consumes a token first, so depth and iteration count are at most 8 per
+    remaining token. -/
+theorem parser_terminates (inp : ByteArray) (nok : NumOK) : parse inp nok ≠ .err "fuel" :=
+  parse_fuel inp nok
+
+/-- every non-EOF token ends strictly behind the lexer position it was requested at, within the text -/
+theorem lexer_makes_progress (inp : ByteArray) (pos : Nat) (t : Token) (p' : Nat)
+    (h : nextToken inp pos = .ok (t, p')) : pos ≤ p' ∧ (t.type ≠ .eof → pos < p' ∧ pos < inp.size) :=
+  nextToken_progress inp pos t p' h
+
+/-- hence `BuildFilter`'s parse step has exactly two kinds of outcome for every text: a tree, or one
+    of the parser's own error messages -/
+theorem parse_returns_tree_or_error (inp : ByteArray) (nok : NumOK) :
+    (∃ e, parse inp nok = .ok e) ∨ (∃ m, parse inp nok = .err m ∧ m ≠ "fuel") := by
+  have h1 := parse_no_panic inp nok
+  have h2 := parser_terminates inp nok
+  cases h : parse inp nok with
+  | ok e => exact Or.inl ⟨e, rfl⟩
+  | err m => exact Or.inr ⟨m, rfl, by intro e; subst e; exact h2 h⟩
+  | panic m => rw [h] at h1; simp [Outcome.isPanic] at h1
 
 /-- applying a built filter is a total function of (tree, decoded metadata): it returns a boolean
     for every value, and `none` (metadata that is not JSON) rejects -/
